@@ -271,6 +271,72 @@ fn replay(a: &HashMap<String, String>) -> i32 {
     }
 }
 
+/// Re-observe recorded events: same inputs, fresh observation (used by --replay).
+fn reobserve(a: &HashMap<String, String>) -> i32 {
+    let dir = a.get("dir").expect("--dir");
+    let inp = a.get("in").expect("--in");
+    let out = a.get("out").expect("--out");
+    quiet_panics();
+    let read = |p: String| -> Vec<Value> {
+        match File::open(&p) {
+            Ok(f) => BufReader::new(f)
+                .lines()
+                .map(|l| l.unwrap())
+                .filter(|l| !l.trim().is_empty())
+                .map(|l| serde_json::from_str(&l).unwrap())
+                .collect(),
+            Err(_) => vec![],
+        }
+    };
+    let specs: Vec<SchemeSpec> = read(format!("{dir}/schemes.ndjson"))
+        .into_iter()
+        .map(|v| serde_json::from_value(v).unwrap())
+        .collect();
+    let ctxs: Vec<CtxSpec> = read(format!("{dir}/ctxs.ndjson"))
+        .into_iter()
+        .map(|v| serde_json::from_value(v).unwrap())
+        .collect();
+    let w = World::new(specs, ctxs);
+    let mut tw = BufWriter::new(File::create(out).unwrap());
+    for mut e in read(inp.clone()) {
+        let kind = e["ev"].as_str().unwrap_or("").to_string();
+        match kind.as_str() {
+            "filter" | "value" => {
+                let src = e["src"].as_str().unwrap().to_string();
+                let sch = e["sch"].as_u64().unwrap() as usize;
+                let max = e["max"].as_u64().unwrap_or(128) as u16;
+                let cids: Vec<usize> = e["runs"]
+                    .as_array()
+                    .map(|r| r.iter().map(|x| x["ctx"].as_u64().unwrap() as usize).collect())
+                    .unwrap_or_default();
+                let cids = if cids.is_empty() {
+                    w.ctxs.iter().enumerate().filter(|(_, c)| c.sch == sch).map(|(i, _)| i + 1).collect()
+                } else {
+                    cids
+                };
+                let unames: Vec<String> = e["uses"]
+                    .as_array()
+                    .map(|u| u.iter().map(|x| x["f"].as_str().unwrap().to_string()).collect())
+                    .unwrap_or_default();
+                let o = if kind == "value" {
+                    serde_json::to_value(observe_value(&w, sch, max, &src, &cids, &unames)).unwrap()
+                } else {
+                    serde_json::to_value(observe_filter(&w, sch, max, &src, &cids, &unames)).unwrap()
+                };
+                for k in ["ok", "out", "ast", "runs", "uses"] {
+                    e[k] = o[k].clone();
+                }
+            }
+            _ => {}
+        }
+        serde_json::to_writer(&mut tw, &e).unwrap();
+        tw.write_all(b"\n").unwrap();
+    }
+    tw.flush().unwrap();
+    println!("{{}}");
+    0
+}
+
 fn main() {
     let args: Vec<String> = std::env::args().collect();
     if args.len() < 2 {
@@ -284,6 +350,7 @@ fn main() {
             0
         }
         "replay" => replay(&a),
+        "reobserve" => reobserve(&a),
         other => {
             eprintln!("unknown subcommand {other}");
             2
